@@ -133,6 +133,28 @@ func (c C19) Run(t *tape.Tape, opt core.RunOpt) (res core.Result) {
 		hist = append(hist, "VIOLATION: "+msg)
 		res.Violate("C19", class, msg+"\nhistory:\n"+strings.Join(hist, "\n"), nil)
 	}
+	if t.Bool(1, 8) {
+		// a crowd to begin with: seventeen subscribers and more live at once, most
+		// of them on one topic (a later unsubscribe of that topic is a mass removal)
+		n := 17 + t.Draw(8)
+		for i := 0; i < n; i++ {
+			tp := "a"
+			if i%5 == 4 {
+				tp = topic()
+			}
+			sb := &workload.SimSub{ID: nextSid, Topic: tp, SelIndex: t.Draw(len(workload.SubSelections))}
+			nextSid++
+			w.AddSub(sb)
+			if out := w.Subscribe(sb.ID); out != `{"data":null}` {
+				fail("subscribe_failed", "subscription request of subscriber %d returned %s", sb.ID, out)
+				return
+			}
+			live = append(live, sb.ID)
+			ever = append(ever, sb.ID)
+		}
+		hist = append(hist, fmt.Sprintf("%d subscribers registered to begin with (ids 1..%d, most on topic \"a\")", n, n))
+		res.Count("probe_seventeen_or_more_live_subscribers", 1)
+	}
 	for i := 0; i < nops; i++ {
 		env.log = env.log[:0]
 		switch k := t.Draw(10); {
